@@ -578,13 +578,40 @@ class _Calendar:
 calendar = _Calendar()
 
 
+class _DateMeta(type):
+    def __instancecheck__(cls, x):
+        return isinstance(x, _rdt.date) or type.__instancecheck__(cls, x)
+
+
+class date(metaclass=_DateMeta):
+    """datetime.date: the real class on concrete fields, a (year, month, day) triple with the proleptic-Gregorian day count when
+    a field is symbolic"""
+    def __new__(cls, year, month=None, day=None):
+        if not (is_sym(year) or is_sym(month) or is_sym(day)):
+            return _rdt.date(year, month, day)
+        o = object.__new__(cls)
+        o.year, o.month, o.day = year, month, day
+        return o
+
+    def toordinal(self):
+        return days_from_civil(self.year, self.month, self.day) + _EPOCH_ORD
+
+    @classmethod
+    def today(cls):
+        return _rdt.date.today()
+
+    @classmethod
+    def fromordinal(cls, n):
+        return _rdt.date.fromordinal(n)
+
+
 class _DatetimeModule:
     """what `import datetime` resolves to in the twin modules"""
     datetime = datetime
     timedelta = timedelta
     timezone = timezone
     tzinfo = tzinfo
-    date = _rdt.date
+    date = date
     time = _rdt.time
     MINYEAR = _rdt.MINYEAR
     MAXYEAR = _rdt.MAXYEAR
